@@ -10,6 +10,7 @@
 package main
 
 import (
+	"bytes"
 	"encoding/json"
 	"fmt"
 	"os"
@@ -19,6 +20,7 @@ import (
 
 	"github.com/piotrnar/gocoin/client/txpool"
 	"github.com/piotrnar/gocoin/lib/btc"
+	"github.com/piotrnar/gocoin/lib/chain"
 	"verif/chainkit"
 	"verif/vlib"
 )
@@ -482,6 +484,243 @@ func scRejects(w *World) {
 	w.mine(w.pooled())
 }
 
+// a pooled spend of a coinbase that has JUST matured (tip+1 - height = COINBASE_MATURITY), then the tip block is
+// undone (text-UI `undo`, or the first half of any reorganisation): the coinbase is immature again for the next block
+func scCoinbaseUndo(w *World) {
+	w.mine(nil) // one harness block, so that there is something to undo
+	cb := w.justMatured()
+	if cb == nil {
+		w.r.Hit("gen:no-just-matured-coinbase")
+		return
+	}
+	fc := w.freeCoins(true)
+	var plain *chainkit.Coin
+	for _, c := range fc {
+		if !c.Coinbase {
+			plain = c
+			break
+		}
+	}
+	x := w.spend([]*chainkit.Coin{cb}, 1, 4000, nil, false)
+	if w.submit(x, "net") == 0 {
+		w.r.Hit("gen:just-matured-coinbase-pooled")
+	}
+	y := w.spend([]*chainkit.Coin{x.outs[0], plain}, 1, 3000, nil, false) // a child, so that a removal has to cascade
+	w.submit(y, "net")
+	w.undoBare()
+	w.r.Hit("gen:undo-below-maturity")
+	w.mine(nil) // mature again
+	w.mine(w.pooled())
+}
+
+// justMatured returns the setup coinbase output that is spendable in the NEXT block for the first time
+// (tip+1 - height = COINBASE_MATURITY), described to the oracle and entered into the harness ledger; nil if none.
+func (w *World) justMatured() *chainkit.Coin {
+	tip := w.k.Ch.LastBlock().Height
+	if tip+1 < chain.COINBASE_MATURITY+9 {
+		return nil
+	}
+	h := tip + 1 - chain.COINBASE_MATURITY
+	if h < 9 || int(h) > len(w.setupCb) { // 1..8 were spent by the fan-out
+		return nil
+	}
+	cb := chainkit.OutCoins(w.setupCb[h-1], w.keys, h, true)[0]
+	if !w.cbTold[cb.Out.Hash] {
+		w.cbTold[cb.Out.Hash] = true
+		w.mustOK(fmt.Sprintf("coin %s %d %d %d 1", hid(cb.Out.Hash), cb.Out.Vout, cb.Value, h))
+		w.ledger[cb.Out] = cb
+	}
+	if w.ledger[cb.Out] == nil || w.isSpentInPool(cb.Out) {
+		return nil
+	}
+	return cb
+}
+
+// twin builds another serialization of ti's transaction: same txid, other witness. kind "resign" = signed again
+// (valid, the signer's nonce differs), "stuffed" = one more witness item on the first segwit input (bigger, invalid),
+// "corrupt" = a flipped signature byte in the witness (same size, invalid). nil when the tx has no witness.
+func (w *World) twin(ti *txInfo, kind string) *txInfo {
+	var ins []*chainkit.Coin
+	var seqs []uint32
+	for _, in := range ti.tx.TxIn {
+		c := w.coinOf(in.Input)
+		if c == nil {
+			return nil
+		}
+		ins = append(ins, c)
+		seqs = append(seqs, in.Sequence)
+	}
+	var outs []chainkit.OutSpec
+	for _, o := range ti.tx.TxOut {
+		outs = append(outs, chainkit.OutSpec{Value: o.Value, Script: o.Pk_script})
+	}
+	tx := chainkit.BuildTx(ti.tx.Version, ins, seqs, outs, ti.tx.Lock_time)
+	if tx.Hash.Hash != ti.tx.Hash.Hash || tx.SegWit == nil {
+		return nil
+	}
+	ok := true
+	wi := -1
+	for i := range tx.SegWit {
+		if len(tx.SegWit[i]) > 0 && len(tx.SegWit[i][0]) > 10 {
+			wi = i
+			break
+		}
+	}
+	if wi < 0 {
+		return nil
+	}
+	switch kind {
+	case "stuffed":
+		tx.SegWit[wi] = append(tx.SegWit[wi], []byte{1, 2, 3, 4, 5, 6, 7})
+		ok = false
+	case "corrupt":
+		tx.SegWit[wi][0][6] ^= 0x55
+		ok = false
+	}
+	chainkit.Finish(tx)
+	raw := tx.SerializeNew()
+	if tx.Hash.Hash != ti.tx.Hash.Hash || bytes.Equal(raw, ti.raw) {
+		w.r.Hit("gen:twin-identical")
+		return nil
+	}
+	for _, o := range w.twins[tx.Hash.Hash] {
+		if bytes.Equal(o.raw, raw) {
+			return o
+		}
+	}
+	t2 := &txInfo{tx: tx, raw: raw, scriptOK: ok && ti.scriptOK, outs: ti.outs}
+	w.twins[tx.Hash.Hash] = append(w.twins[tx.Hash.Hash], t2)
+	w.r.Hit("gen:witness-twin-" + kind)
+	return t2
+}
+
+// segwitCoin picks a confirmed free coin paying to the harness key by witness program.
+func (w *World) segwitCoin(skip int) *chainkit.Coin {
+	for _, c := range w.freeCoins(true) {
+		if c.Kind == "p2wpkh" && !c.Coinbase {
+			if skip == 0 {
+				return c
+			}
+			skip--
+		}
+	}
+	return nil
+}
+
+// witness-malleated twins (same txid, other witness): outside the theorems' `id_fun`; the model is told the
+// serialization in use before every operation, the property predicate is judged on the real pool
+func scWitnessTwins(w *World) {
+	c0, c1 := w.segwitCoin(0), w.segwitCoin(1)
+	if c0 == nil || c1 == nil {
+		w.r.Hit("gen:no-segwit-coin")
+		return
+	}
+	a := w.spend([]*chainkit.Coin{c0}, 2, 4000, nil, false)
+	w.submit(a, "net")
+	ch := w.spend(a.outs[:1], 1, 2500, nil, false)
+	w.submit(ch, "net")
+	for _, kind := range []string{"resign", "stuffed", "corrupt"} { // while the first one is pooled: not wanted
+		if t := w.twin(a, kind); t != nil {
+			if code := w.submit(t, "net"); code >= 1000 {
+				w.r.Hit("twin:while-pooled-not-wanted")
+			}
+			w.submit(t, "local")
+		}
+	}
+	if t := w.twin(a, "resign"); t != nil { // the mined version carries the other witness
+		w.mine([]*txInfo{t})
+		w.r.Hit("twin:mined-while-first-pooled")
+		w.undoBare() // ... and comes back into the pool as the twin, its child re-flagged
+		w.tickExpire([]*txInfo{a})
+		w.submit(a, "net") // the first serialization again
+		w.mine([]*txInfo{t})
+	}
+	// refused first (bigger, invalid witness), then the valid serialization of the same txid
+	b := w.spend([]*chainkit.Coin{c1}, 1, 3000, nil, false)
+	if t := w.twin(b, "stuffed"); t != nil {
+		w.submit(t, "net") // SCRIPT_FAIL: not remembered
+		w.submit(b, "net")
+		w.r.Hit("twin:valid-after-invalid")
+	}
+	if t := w.twin(b, "resign"); t != nil {
+		w.reorg(1, []*txInfo{t}) // the block of a's twin is replaced; b's twin is mined while b is pooled
+	}
+	w.mine(w.pooled())
+}
+
+// the sorted list stays dirty over many operations (nobody asks for a listing), incl. blocks, an undo and a reload
+func scDirtyList(w *World) {
+	w.skipList = 100
+	fc := w.freeCoins(true)
+	a := w.spend(fc[:1], 2, 3000, nil, false)
+	w.submit(a, "net")
+	b := w.spend(a.outs[:1], 2, 9000, nil, false)
+	w.submit(b, "net")
+	w.mine([]*txInfo{a}) // mined(): flags change, list dirty from here on
+	for i := 2; i < 8; i++ {
+		t := w.spend(fc[i:i+1], 2, w.randFee(1, 2), nil, false)
+		w.submit(t, "net")
+		if i%2 == 0 {
+			w.submit(w.spend(t.outs[:1], 1, w.randFee(1, 1), nil, false), "net")
+		}
+	}
+	c := w.spend([]*chainkit.Coin{b.outs[0], b.outs[1]}, 1, 500, nil, false)
+	w.submit(c, "local")
+	w.submit(w.spend(fc[1:2], 1, 7000, nil, false), "net")
+	w.tickExpire([]*txInfo{b}) // deletion with a child on a dirty list
+	w.mine(nil)
+	w.undoBare()
+	w.reload()
+	w.submit(b, "net")
+	w.skipList = 0
+	w.mine(w.pooled()[:1]) // the first listing after all that: rebuilt from scratch and compared
+	w.mine(w.pooled())
+}
+
+// a reorganisation taken apart: every undone block and every new block is a verified state
+func (w *World) reorgStepwise(depth int, cands []*txInfo) bool {
+	if depth > len(w.blocks) {
+		depth = len(w.blocks)
+	}
+	for i := 0; i < depth; i++ {
+		if !w.undoBare() {
+			return false
+		}
+	}
+	w.r.Hit(fmt.Sprintf("reorg-stepwise-depth:%d", depth))
+	rest := cands
+	for i := 0; i <= depth; i++ {
+		take := rest
+		if i < depth {
+			take, rest = rest[:len(rest)/2], rest[len(rest)/2:]
+		}
+		if !w.mine(take) {
+			return false
+		}
+	}
+	return true
+}
+
+func scReorgStepwise(w *World) {
+	fc := w.freeCoins(true)
+	a := w.spend(fc[:1], 2, 3000, nil, false)
+	b := w.spend(a.outs[:1], 1, 2000, nil, false)
+	c := w.spend(fc[1:2], 1, 2500, nil, false)
+	w.submit(a, "net")
+	w.submit(b, "net")
+	w.submit(c, "net")
+	cx := w.spend(fc[1:2], 1, 7000, nil, false) // conflicts with c
+	w.mine([]*txInfo{a, cx})
+	d := w.spend(cx.outs[:1], 1, 2000, nil, false)
+	w.submit(d, "net") // child of a tx that the reorganisation will un-mine and then conflict out
+	w.mine([]*txInfo{b})
+	if cb := w.justMatured(); cb != nil {
+		w.submit(w.spend([]*chainkit.Coin{cb}, 1, 4000, nil, false), "net")
+	}
+	w.reorgStepwise(2, []*txInfo{c, a})
+	w.mine(w.pooled())
+}
+
 // ------------------------------------------------------------------------------------------ random histories
 
 func scRandom(steps int, withBig bool) func(w *World) {
@@ -506,9 +745,25 @@ func scRandomSteps(w *World, steps int, withBig bool, final bool) {
 					seqs = []uint32{0xfffffffd}
 				}
 				mode := w.randMode()
+				coins := w.pickCoins(free, nin)
+				if w.g.Chance(1, 12) {
+					if cb := w.justMatured(); cb != nil { // spendable for the first time in the next block
+						coins[0] = cb
+						w.r.Hit("gen:just-matured-coinbase")
+					}
+				}
 				// trusted peers and the local wallet are trusted with script validity: only the net path gets bad signatures
-				t := w.spend(w.pickCoins(free, nin), nout, w.randFee(nin, nout), seqs, mode == "net" && w.g.Chance(1, 8))
-				w.submit(t, mode)
+				t := w.spend(coins, nout, w.randFee(nin, nout), seqs, mode == "net" && w.g.Chance(1, 8))
+				if w.submit(t, mode) == 0 && len(pool) > 0 && w.g.Chance(1, 10) {
+					kinds := []string{"resign", "stuffed", "corrupt"}
+					if tw := w.twin(t, kinds[w.g.Intn(3)]); tw != nil {
+						if w.g.Bool() {
+							w.submit(tw, "net") // while the first serialization is pooled
+						} else {
+							held = append(held, tw) // may come in a block, or after the first one has left the pool
+						}
+					}
+				}
 			case x < 52 && len(pool) > 0: // double spend, fee lower / equal / higher
 				v := pool[w.g.Intn(len(pool))]
 				var coins []*chainkit.Coin
@@ -636,8 +891,19 @@ func scRandomSteps(w *World, steps int, withBig bool, final bool) {
 						cands = append(cands, h)
 					}
 				}
-				if !w.reorg(depth, cands) {
-					return
+				switch w.g.Intn(4) {
+				case 0:
+					if !w.undoBare() { // the text-UI `undo`: the pool must be in order on the lower tip as well
+						return
+					}
+				case 1:
+					if !w.reorgStepwise(depth, cands) {
+						return
+					}
+				default:
+					if !w.reorg(depth, cands) {
+						return
+					}
 				}
 			case x < 95 && len(pool) > 0: // expiry
 				var old []*txInfo
@@ -708,6 +974,10 @@ func scenarios(r *vlib.Run) []scenario {
 		{"corpus:rejects", scRejects, false},
 		{"corpus:reject-nodata-mined", scRejectMined, false},
 		{"corpus:reject-mined-notfullrbf", scRejectMined, true},
+		{"corpus:coinbase-undo", scCoinbaseUndo, false},
+		{"corpus:witness-twins", scWitnessTwins, false},
+		{"corpus:dirty-list", scDirtyList, false},
+		{"corpus:reorg-stepwise", scReorgStepwise, false},
 	}
 	l = append(l,
 		// 43 arrivals directly below the head of a freshly built list: the rank gap there goes 2^42.4 … 3, 2, 1
@@ -773,7 +1043,9 @@ func main() {
 		"CPFP fee packages (pkgs.go): their membership is observed from gocoin (FeePackages) and validated by the model (pkgOK); the merge of GetSortedMempoolRBF is modelled and compared element by element",
 		"amounts stay far below 2^64 (no uint64 wrap in fee products); size-based limits of the rejected list are kept out of reach",
 		"transactions from trusted peers / the local wallet (Trusted: scripts are not run) carry valid scripts; corrupted signatures are only sent on the untrusted path",
-		"blocks handed to the chain are valid; the harness applies client/main.go's wiring (callbacks, BlockCommitInProgress, common.Last) itself",
+		"blocks handed to the chain are valid; the harness applies client/main.go's wiring (callbacks, BlockCommitInProgress, common.Last) itself; a bare undo is driven as client/usif/textui undo_block does",
+		"Go map-iteration order (batch of REPLACED records in the reject ring; ties of sort.Slice) is an input: the model adopts the observed order through ringorder / setorder, which are proved to preserve the invariants (resync_step_inv)",
+		"several serializations of one txid (witness-malleated twins) are outside the theorems' id_fun: the model is told the serialization in use before every operation and every divergence is reported, the property predicate is judged on the real pool",
 	}
 	base := r.Rng
 	only := ""
